@@ -20,3 +20,21 @@ Theorem c09_finished_plan_runs_nothing :
     Forall (fun e => match e with EvStart _ | EvEnd _ _ | EvWrite _ _ _ _ _ => False | _ => True end) tr.
 Proof. exact unresumed_plan_runs_nothing. Qed.
 Print Assumptions c09_finished_plan_runs_nothing.
+
+(* c09_no_reexecution, one crash, for EVERY crash image I (any image, not only reachable ones), every deviation flag
+   and every trace the resumed automaton accepts from the repair of I: no EvStart of a sequence action that is
+   finished in I (Completed / Failed / Stopped) or whose last durable attempt has no error, none inside a sequence
+   or block that is finished in I, none at all when the plan is not durably Running - i.e. the monitor mon_noreexec
+   holds.  The premise [repair_sound sh I] is what the proof needs to know about the crash repair of THIS image
+   (three facts about Fix.fix_plan, stated in NoReexec.v): a finished block stays finished; a sequence left
+   unfinished in a block left unfinished has only unfinished actions; a sequence fixBlock resumes lies in a Running
+   block and its actions from the first non-Completed one on are unfinished. *)
+From Coercion.Resume Require Import Frame NoReexec C09Proofs.
+Theorem c09_no_reexecution_partial :
+  forall (d : devs) (sh : shape) (I : image) (tr : list event) (r0 r : rst),
+    repair_sound sh (dimg_of_image I) ->
+    rinit sh (dimg_of_image I) (im_reason I) = Some r0 ->
+    rrun d sh r0 tr = Some r ->
+    mon_noreexec I tr = true.
+Proof. exact noreexec_of_repair_sound. Qed.
+Print Assumptions c09_no_reexecution_partial.
